@@ -507,4 +507,43 @@ theorem undefined_name_attributeError {V : Type} (w : NsWorld V) (vars : Dict V)
 
 example : evalName ([("GDP", 1), ("gdp", 2)] : Dict Nat) ["GDP", "gdp"] "Gdp" = .attributeError "Gdp" := by decide
 
+/-! ### eval inside histories -/
+
+/-- **eval depends only on the final store.**  Two histories (any operations, any earlier `eval` calls) that
+    leave the same variable store give the same namespace to the next `eval`. -/
+theorem eval_depends_only_on_final_store {V : Type} (w : NsWorld V) (s s' : Dict V) (ops ops' : List (StoreOp V))
+    (locals_ : Option (Dict V)) (h : applyOps s ops = applyOps s' ops') :
+    namespaceAfter w s ops locals_ = namespaceAfter w s' ops' locals_ := by
+  unfold namespaceAfter
+  rw [h]
+
+/-- **Earlier eval calls leave no trace**: deleting every `eval` from a history does not change the store the
+    next `eval` reads. -/
+theorem earlier_evals_do_not_matter {V : Type} (s : Dict V) (ops : List (StoreOp V)) :
+    applyOps s (ops.filter fun o => !o.isEval) = applyOps s ops := by
+  unfold applyOps
+  induction ops generalizing s with
+  | nil => rfl
+  | cons o os ih =>
+    simp only [List.filter_cons]
+    cases h : o.isEval
+    · simp only [Bool.not_false, if_true, List.foldl_cons]
+      exact ih _
+    · have hs : applyOp s o = s := by
+        cases o <;> simp [StoreOp.isEval] at h
+        rfl
+      simp only [Bool.not_true, List.foldl_cons, hs]
+      exact ih s
+
+/-- **After a whole-series assignment the next eval sees the NEW series** — whatever happened before (including
+    `eval` calls that saw the old one), as long as no caller local shadows the name. -/
+theorem rebind_then_eval {V : Type} (w : NsWorld V) (s0 : Dict V) (ops : List (StoreOp V)) (x : String) (v : V) :
+    (namespaceAfter w s0 (ops ++ [.eval, .rebind x v]) none).get x = some v := by
+  unfold namespaceAfter
+  rw [namespace_precedence]
+  simp [applyOps, List.foldl_append, applyOp, Dict.get, List.lookup]
+
+example : (namespaceAfter (⟨[[("lag", 0)]]⟩ : NsWorld Nat) [("X", 1), ("Y", 2)] [.eval, .rebind "X" 7, .eval] none).get "X"
+    = some 7 := by decide
+
 end Fsic.C16
